@@ -160,6 +160,8 @@ pub struct Scenario {
     pub seed: u64,
     pub key_update_every: Option<u64>,
     pub cid_lifetime_ms: Option<u64>,
+    /// replace / extend the transport-parameter block one side sends (null TLS only): (who, edit)
+    pub tp_edit: Option<(u8, TpEdit)>,
 }
 
 impl Scenario {
@@ -182,6 +184,7 @@ impl Scenario {
             seed: 1,
             key_update_every: None,
             cid_lifetime_ms: None,
+            tp_edit: None,
         }
     }
     pub fn describe(&self) -> String {
@@ -227,6 +230,113 @@ impl tls::Provider for NoTls {
     }
     fn start_client(self) -> Result<Self::Client, Self::Error> {
         Ok(Self::Client::default())
+    }
+}
+
+/// edit of an encoded transport-parameter block (sequence of id, length, value)
+#[derive(Clone, Debug, PartialEq)]
+pub enum TpEdit {
+    /// remove every occurrence of the id, then append id/len/value
+    Replace(u64, Vec<u8>),
+    Remove(u64),
+    /// append raw bytes
+    Append(Vec<u8>),
+}
+
+fn tp_varint(b: &[u8], p: &mut usize) -> Option<u64> {
+    let first = *b.get(*p)?;
+    let len = 1usize << (first >> 6);
+    let mut v = (first & 0x3f) as u64;
+    for i in 1..len {
+        v = (v << 8) | *b.get(*p + i)? as u64;
+    }
+    *p += len;
+    Some(v)
+}
+
+fn tp_put_varint(out: &mut Vec<u8>, v: u64) {
+    if v < 1 << 6 {
+        out.push(v as u8);
+    } else if v < 1 << 14 {
+        out.extend_from_slice(&((v as u16) | 0x4000).to_be_bytes());
+    } else if v < 1 << 30 {
+        out.extend_from_slice(&((v as u32) | 0x8000_0000).to_be_bytes());
+    } else {
+        out.extend_from_slice(&(v | 0xc000_0000_0000_0000).to_be_bytes());
+    }
+}
+
+pub fn tp_apply(block: &[u8], edit: &TpEdit) -> Vec<u8> {
+    let drop_id = match edit {
+        TpEdit::Replace(id, _) | TpEdit::Remove(id) => Some(*id),
+        TpEdit::Append(_) => None,
+    };
+    let mut out = Vec::new();
+    let mut p = 0usize;
+    while p < block.len() {
+        let start = p;
+        let Some(id) = tp_varint(block, &mut p) else { break };
+        let Some(len) = tp_varint(block, &mut p) else { break };
+        let end = (p + len as usize).min(block.len());
+        if Some(id) != drop_id {
+            out.extend_from_slice(&block[start..end]);
+        }
+        p = end;
+    }
+    match edit {
+        TpEdit::Replace(id, value) => {
+            tp_put_varint(&mut out, *id);
+            tp_put_varint(&mut out, value.len() as u64);
+            out.extend_from_slice(value);
+        }
+        TpEdit::Append(raw) => out.extend_from_slice(raw),
+        TpEdit::Remove(_) => {}
+    }
+    out
+}
+
+/// null TLS endpoint that edits the transport parameters it is asked to send
+pub struct TamperEndpoint {
+    inner: null::Endpoint,
+    edit: Option<TpEdit>,
+}
+
+impl s2n_quic_core::crypto::tls::Endpoint for TamperEndpoint {
+    type Session = <null::Endpoint as s2n_quic_core::crypto::tls::Endpoint>::Session;
+    fn new_server_session<Params: s2n_codec::EncoderValue>(&mut self, transport_parameters: &Params, connection_info: s2n_quic_core::crypto::tls::ConnectionInfo) -> Self::Session {
+        let block = transport_parameters.encode_to_vec();
+        let block = match &self.edit {
+            Some(e) => tp_apply(&block, e),
+            None => block,
+        };
+        self.inner.new_server_session(&&block[..], connection_info)
+    }
+    fn new_client_session<Params: s2n_codec::EncoderValue>(&mut self, transport_parameters: &Params, server_name: s2n_quic_core::application::ServerName) -> Self::Session {
+        let block = transport_parameters.encode_to_vec();
+        let block = match &self.edit {
+            Some(e) => tp_apply(&block, e),
+            None => block,
+        };
+        self.inner.new_client_session(&&block[..], server_name)
+    }
+    fn max_tag_length(&self) -> usize {
+        self.inner.max_tag_length()
+    }
+}
+
+pub struct TamperTls {
+    pub server_edit: Option<TpEdit>,
+    pub client_edit: Option<TpEdit>,
+}
+impl tls::Provider for TamperTls {
+    type Server = TamperEndpoint;
+    type Client = TamperEndpoint;
+    type Error = String;
+    fn start_server(self) -> Result<Self::Server, Self::Error> {
+        Ok(TamperEndpoint { inner: null::Endpoint::default(), edit: self.server_edit })
+    }
+    fn start_client(self) -> Result<Self::Client, Self::Error> {
+        Ok(TamperEndpoint { inner: null::Endpoint::default(), edit: self.client_edit })
     }
 }
 
@@ -799,6 +909,11 @@ impl ExecInput {
 macro_rules! with_tls_cc {
     ($scn:expr, $f:ident, $($args:expr),*) => {
         match ($scn.tls, $scn.cc) {
+            (Tls::Null, Cc::Cubic) if $scn.tp_edit.is_some() => {
+                let (who, edit) = $scn.tp_edit.clone().unwrap();
+                let (se, ce) = if who == SERVER { (Some(edit), None) } else { (None, Some(edit)) };
+                $f(TamperTls { server_edit: se, client_edit: None }, TamperTls { server_edit: None, client_edit: ce }, congestion_controller::Cubic::default(), congestion_controller::Cubic::default(), $($args),*)
+            }
             (Tls::Null, Cc::Cubic) => $f(NoTls, NoTls, congestion_controller::Cubic::default(), congestion_controller::Cubic::default(), $($args),*),
             (Tls::Null, Cc::Bbr) => $f(NoTls, NoTls, congestion_controller::Bbr::default(), congestion_controller::Bbr::default(), $($args),*),
             (Tls::S2n, Cc::Cubic) => $f((certificates::CERT_PEM, certificates::KEY_PEM), certificates::CERT_PEM, congestion_controller::Cubic::default(), congestion_controller::Cubic::default(), $($args),*),
